@@ -5,6 +5,7 @@ import (
 	"fmt"
 	"net/http"
 	"regexp"
+	"sort"
 	"strings"
 	"sync"
 	"sync/atomic"
@@ -111,10 +112,27 @@ func (c *HttpContext) Write(wb []byte) (int, error) {
 	}
 	defer c.Flush()
 
-	for k, v := range c.ResponseHeaders.All() {
-		// every value of a field, not only the first; a field without values
-		// stays without values (the net/http idiom that suppresses it)
-		c.response.Header()[http.CanonicalHeaderKey(k)] = v
+	// every value of a field, not only the first; a field without values stays
+	// without values (the net/http idiom that suppresses it). Names are folded
+	// in a fixed order, and two spellings of one field join their values: in
+	// map order "set-cookie" and "Set-Cookie" overwrote each other at random
+	all := c.ResponseHeaders.All()
+	keys := c.ResponseHeaders.Keys()
+	sort.Strings(keys)
+	header := c.response.Header()
+	written := make(map[string]bool, len(keys))
+	for _, k := range keys {
+		v, ok := all[k]
+		if !ok {
+			continue
+		}
+		name := http.CanonicalHeaderKey(k)
+		if written[name] {
+			header[name] = append(header[name], v...)
+		} else {
+			header[name] = v
+			written[name] = true
+		}
 	}
 	c.response.WriteHeader(c.GetStatusCode())
 
